@@ -97,6 +97,10 @@ func funcArrayRandSize(ctx *Context, this *VMValue, params []*VMValue) *VMValue 
 	arr, _ = newArr.ReadArray()
 
 	if val, ok := params[0].ReadInt(); ok {
+		if val < 0 || val > IntType(len(arr.List)) {
+			ctx.Error = errors.New("(arr.randSize)值错误: 个数超出数组范围")
+			return nil
+		}
 		arr.List = arr.List[:val]
 		return newArr
 	} else {
